@@ -4,8 +4,10 @@
 (* by ErrTreeMC.tla was rebuilt with the real errors.Join and iterated     *)
 (* with the real cfgerrors.All, the consumer breaking after k items - once *)
 (* by calling the iterator with a counting consumer, once with a range     *)
-(* loop.  TLC requires: yielded = the first k leaves in order, nothing     *)
-(* yielded after the break, no panic.                                      *)
+(* loop, and once by ranging over ONE iterator value twice (broken off     *)
+(* after k items, then to the end).  TLC requires: yielded = the first k   *)
+(* leaves in order, nothing yielded after the break, the second loop over  *)
+(* the same value yields exactly the leaves again, no panic.               *)
 (***************************************************************************)
 EXTENDS ErrTree, Json, IOUtils
 
@@ -17,7 +19,9 @@ Iter == /\ l <= Len(Trace) /\ Trace[l].ev = "Iter" /\ l' = l + 1
         /\ LET e == Trace[l]  want == Take(Leaves(e.tree), e.k) IN
            /\ bad' = (IF e.out # want \/ e.rout # want THEN {<<l, "yielded sequence is not the first k leaves">>} ELSE {})
                      \cup (IF e.late # 0 THEN {<<l, "the iterator kept yielding after the consumer broke out">>} ELSE {})
-                     \cup (IF e.panicked \/ e.rpanicked THEN {<<l, "panic">>} ELSE {})
+                     \cup (IF e.panicked \/ e.rpanicked \/ e.apanicked THEN {<<l, "panic">>} ELSE {})
+                     \cup (IF e.again # Leaves(e.tree)
+                           THEN {<<l, "ranging again over the same iterator value after a broken-off loop does not yield exactly the leaves">>} ELSE {})
                      \cup bad
            /\ stats' = [stats EXCEPT !.early = @ + (IF e.k < Len(Leaves(e.tree)) THEN 1 ELSE 0), !.runs = @ + 1]
 Init == l = 1 /\ bad = {} /\ stats = [early |-> 0, runs |-> 0]
